@@ -50,6 +50,8 @@ var letterSitesX = append(append([]letterSite{}, letterSites...),
 	letterSite{"sensitive", "types/sensitivetype.go", "Sensitive", "ToString"},
 	letterSite{"typ", "types/types.go", "", "TypeToString"},
 	letterSite{"obj", "types/hashtype.go", "Hash", "ToString2"},
+	letterSite{"talias", "types/typealiastype.go", "TypeAliasType", "ToString"},
+	letterSite{"otype", "types/objecttype.go", "objectType", "ToString"},
 )
 
 // armCalls: the arm contains a call `….NAME(…)`
